@@ -8,7 +8,6 @@ from warnings import warn
 from quansino.mc.canonical import Canonical
 from quansino.mc.contexts import ExchangeContext
 from quansino.mc.criteria import CanonicalCriteria, GrandCanonicalCriteria
-from quansino.moves.composite import CompositeMove
 from quansino.moves.displacement import DisplacementMove
 from quansino.moves.exchange import ExchangeMove
 
@@ -207,20 +206,11 @@ class GrandCanonical(
 
     def save_state(self) -> None:
         """Save the current state of the context and update move labels."""
-        notified: set[int] = set()
-
-        def notify(move) -> None:
-            if isinstance(move, CompositeMove):
-                for sub_move in move.moves:
-                    notify(sub_move)
-            elif id(move) not in notified:
-                notified.add(id(move))
-                move.on_atoms_changed(
-                    self.context._added_indices, self.context._deleted_indices
-                )
-
-        for move_storage in self.moves.values():
-            notify(move_storage.move)
+        self.notify_moves(
+            "on_atoms_changed",
+            self.context._added_indices,
+            self.context._deleted_indices,
+        )
 
         super().save_state()
 
